@@ -558,9 +558,12 @@ class Component(CaselessDict):
         # are the subcomponent types hashable, so  we cant put them in a set to
         # check for set equivalence. We have to iterate over the subcomponents
         # and look for each of them in the list.
+        # Each subcomponent must be matched by a distinct one of other.
+        unmatched = list(other.subcomponents)
         for subcomponent in self.subcomponents:
-            if subcomponent not in other.subcomponents:
+            if subcomponent not in unmatched:
                 return False
+            unmatched.remove(subcomponent)
 
         return True
 
